@@ -127,6 +127,8 @@ func (aux *Aux) LoadForm() slip.Object {
 	if 0 < len(aux.docs.Text) {
 		gdef = append(gdef, slip.List{slip.Symbol(":documentation"), slip.String(aux.docs.Text)})
 	}
+	aux.moo.Lock()
+	defer aux.moo.Unlock()
 	keys := make([]string, 0, len(aux.methods))
 	for k := range aux.methods {
 		keys = append(keys, k)
@@ -253,7 +255,9 @@ func (aux *Aux) compMethList(args slip.List) slip.List {
 	var mc methComp
 	key := make([]string, aux.reqCnt)
 
+	aux.moo.Lock()
 	aux.compMeths(&mc, key, 0, args)
+	aux.moo.Unlock()
 
 	methods := make(slip.List, 0, len(mc.around)+len(mc.before)+len(mc.after)+1)
 	for _, m := range mc.around {
